@@ -999,7 +999,8 @@ func (s *v4Server) handleRequest(req, resp *dhcpv4.DHCPv4) (lease *dhcpsvc.Lease
 
 // handleDecline is the handler for the DHCP Decline request.
 func (s *v4Server) handleDecline(req, resp *dhcpv4.DHCPv4) (err error) {
-	s.conf.notify(LeaseChangedDBStore)
+	// Store the leases after they have been changed.
+	defer s.conf.notify(LeaseChangedDBStore)
 
 	s.leasesLock.Lock()
 	defer s.leasesLock.Unlock()
@@ -1034,13 +1035,18 @@ func (s *v4Server) handleDecline(req, resp *dhcpv4.DHCPv4) (err error) {
 		return nil
 	}
 
-	newLease.Hostname = oldLease.Hostname
-	newLease.Expiry = time.Now().Add(s.conf.leaseTime)
-
-	err = s.addLease(newLease)
-	if err != nil {
-		return fmt.Errorf("adding new lease for %s: %w", mac, err)
+	// The new lease has already been added by allocateLease, so don't add it
+	// again and only move the hostname to it.
+	if newLease.Hostname != oldLease.Hostname {
+		delete(s.hostsIndex, newLease.Hostname)
+		newLease.Hostname = oldLease.Hostname
 	}
+
+	if newLease.Hostname != "" {
+		s.hostsIndex[newLease.Hostname] = newLease
+	}
+
+	newLease.Expiry = time.Now().Add(s.conf.leaseTime)
 
 	log.Info("dhcpv4: changed IP from %s to %s for %s", reqIP, newLease.IP, mac)
 
